@@ -131,6 +131,8 @@ PAINTS = {
     "alpha": dict(fill="#10203080", stroke="#a0b0c040"),
     "none": dict(fill="none", stroke="navy"),
     "nostroke": dict(fill="olive", stroke="none"),
+    "transparent": dict(fill="transparent", stroke="#0000"),
+    "zero_alpha": dict(fill="#ff000000", stroke="rgba(0, 0, 0, 0)"),
 }
 
 
